@@ -28,10 +28,17 @@ namespace tbb {
 namespace detail {
 namespace d2 {
 
-template <typename QueueRep, typename Allocator>
-std::pair<bool, ticket_type> internal_try_pop_impl(void* dst, QueueRep& queue, Allocator& alloc ) {
+struct no_skipped_ticket_action {
+    void operator()( ticket_type ) const {}
+};
+
+// on_skipped_ticket is called for every ticket whose entry turned out to be invalid (an aborted or failed push):
+// the bounded queue uses it to wake the producers that wait for the slot freed by that ticket.
+template <typename QueueRep, typename Allocator, typename SkippedTicketAction = no_skipped_ticket_action>
+std::pair<bool, ticket_type> internal_try_pop_impl(void* dst, QueueRep& queue, Allocator& alloc,
+                                                   SkippedTicketAction on_skipped_ticket = SkippedTicketAction{} ) {
     ticket_type ticket{};
-    do {
+    for (;;) {
         // Basically, we need to read `head_counter` before `tail_counter`. To achieve it we build happens-before on `head_counter`
         ticket = queue.head_counter.load(std::memory_order_acquire);
         do {
@@ -42,7 +49,11 @@ std::pair<bool, ticket_type> internal_try_pop_impl(void* dst, QueueRep& queue, A
             // Queue had item with ticket k when we looked.  Attempt to get that item.
             // Another thread snatched the item, retry.
         } while (!queue.head_counter.compare_exchange_strong(ticket, ticket + 1));
-    } while (!queue.choose(ticket).pop(dst, ticket, queue, alloc));
+        if (queue.choose(ticket).pop(dst, ticket, queue, alloc)) {
+            break;
+        }
+        on_skipped_ticket(ticket);
+    }
     return { true, ticket };
 }
 
@@ -620,7 +631,13 @@ private:
                 });
             }
             __TBB_ASSERT(static_cast<std::ptrdiff_t>(my_queue_representation->tail_counter.load(std::memory_order_relaxed)) > target, nullptr);
-        } while (!my_queue_representation->choose(target).pop(dst, target, *my_queue_representation, my_allocator));
+            if (my_queue_representation->choose(target).pop(dst, target, *my_queue_representation, my_allocator)) {
+                break;
+            }
+            // The entry of an aborted or failed push was skipped: its slot is free, wake the producer waiting for it
+            // (the item with the next ticket may be the one that producer is about to push).
+            r1::notify_bounded_queue_monitor(my_monitors, cbq_slots_avail_tag, target);
+        } while (true);
 
         r1::notify_bounded_queue_monitor(my_monitors, cbq_slots_avail_tag, target);
     }
@@ -628,7 +645,8 @@ private:
     bool internal_pop_if_present( void* dst ) {
         bool present{};
         ticket_type ticket{};
-        std::tie(present, ticket) = internal_try_pop_impl(dst, *my_queue_representation, my_allocator);
+        std::tie(present, ticket) = internal_try_pop_impl(dst, *my_queue_representation, my_allocator,
+            [this]( ticket_type skipped ) { r1::notify_bounded_queue_monitor(my_monitors, cbq_slots_avail_tag, skipped); });
 
         if (present) {
             r1::notify_bounded_queue_monitor(my_monitors, cbq_slots_avail_tag, ticket);
